@@ -392,7 +392,43 @@ func c48Mechanism(done []ctEntry, target string, tornZero bool) string {
 	return "untouched"
 }
 
+// c48Derived: "<base>@after-kill-<k>" is the base scenario started from the sandbox that a run of the base scenario
+// killed at crash point k leaves behind (non-initial state: leftover temporary files of an earlier crash).
+var c48derived = map[string]*c48Scn{}
+
 func c48Scn_(name string) *c48Scn {
+	if i := strings.Index(name, "@after-kill-"); i > 0 {
+		c48refMu.Lock()
+		d := c48derived[name]
+		c48refMu.Unlock()
+		if d != nil {
+			return d
+		}
+		base := c48Scn_(name[:i])
+		k, err := strconv.Atoi(name[i+len("@after-kill-"):])
+		if base == nil || err != nil {
+			return nil
+		}
+		sb, _, _, _, out, err := c48Run(base, []string{"kill", strconv.Itoa(k)})
+		if err != nil {
+			panic(harnessError{fmt.Sprintf("%s: first crash: %v\n%s", name, err, out)})
+		}
+		defer os.RemoveAll(filepath.Dir(sb))
+		files := map[string]string{}
+		filepath.Walk(sb, func(p string, fi os.FileInfo, err error) error {
+			if err == nil && fi.Mode().IsRegular() {
+				b, _ := os.ReadFile(p)
+				rel, _ := filepath.Rel(sb, p)
+				files[rel] = string(b)
+			}
+			return nil
+		})
+		d = &c48Scn{Name: name, Cmd: base.Cmd, Files: files, Args: base.Args, Targets: base.Targets, Thorough: base.Thorough}
+		c48refMu.Lock()
+		c48derived[name] = d
+		c48refMu.Unlock()
+		return d
+	}
 	for _, s := range c48Scenarios() {
 		if s.Name == name {
 			s := s
@@ -496,122 +532,174 @@ func c48Solo(p *eng.Solo) {
 		}
 	}
 	p.Coverage["build_s"] = time.Since(t0).Seconds()
-	t0 = time.Now()
-	// phase 1: reference runs (parallel)
-	var herr []string
+
 	var mu sync.Mutex
-	parallel(len(scns), 0, nil, func(i int) {
-		r := c48GetRef(&scns[i])
-		if r.err != nil {
-			mu.Lock()
-			herr = append(herr, r.err.Error())
-			mu.Unlock()
-		}
-	})
-	if len(herr) > 0 {
-		sort.Strings(herr)
-		p.HarnessErr = strings.Join(herr, "\n")
-		return
-	}
-	p.Coverage["reference_runs_s"] = time.Since(t0).Seconds()
-	t0 = time.Now()
-	// phase 2: every crash point
-	var wits []c48Wit
+	var herr, timeouts []string
+	var evals, nontriv int64
+	outcomes := map[string]int{}
+	killOutcome := map[string]string{} // "<scenario>/<k>" -> outcome of the kill run
+	var allWits []c48Wit
 	perScn := []any{}
-	for i := range scns {
-		r := c48GetRef(&scns[i])
-		writes, tears := 0, 0
-		for k, e := range r.ents {
-			wits = append(wits, c48Wit{Scn: scns[i].Name, Mode: "kill", K: k + 1, At: e.String()})
-			if (e.Call == "write" || e.Call == "pwrite64") && e.N >= 0 {
-				writes++
-				seen := map[int64]bool{}
-				for _, c := range []int64{0, 1, e.N / 2, e.N - 1} {
-					if c < 0 || c > e.N || seen[c] {
-						continue
+	planned, finished, refRuns := 0, 0, 0
+
+	// one round: reference runs (parallel), then every crash point of every scenario of the round
+	round := func(scns []c48Scn) bool {
+		parallel(len(scns), 0, nil, func(i int) {
+			r := c48GetRef(&scns[i])
+			if r.err != nil {
+				mu.Lock()
+				herr = append(herr, r.err.Error())
+				mu.Unlock()
+			}
+		})
+		refRuns += 2 * len(scns)
+		if len(herr) > 0 {
+			return false
+		}
+		var wits []c48Wit
+		for i := range scns {
+			r := c48GetRef(&scns[i])
+			writes, tears := 0, 0
+			for k, e := range r.ents {
+				wits = append(wits, c48Wit{Scn: scns[i].Name, Mode: "kill", K: k + 1, At: e.String()})
+				if (e.Call == "write" || e.Call == "pwrite64") && e.N >= 0 {
+					writes++
+					seen := map[int64]bool{}
+					for _, c := range []int64{0, 1, e.N / 2, e.N - 1} {
+						if c < 0 || c > e.N || seen[c] {
+							continue
+						}
+						seen[c] = true
+						tears++
+						wits = append(wits, c48Wit{Scn: scns[i].Name, Mode: "tear", K: k + 1, N: c, At: e.String()})
 					}
-					seen[c] = true
-					tears++
-					wits = append(wits, c48Wit{Scn: scns[i].Name, Mode: "tear", K: k + 1, N: c, At: e.String()})
 				}
 			}
+			var calls []string
+			for _, e := range r.ents {
+				calls = append(calls, e.String())
+			}
+			perScn = append(perScn, map[string]any{"scenario": scns[i].Name, "d2_args": scns[i].Args, "mutating_calls": calls, "kill_points": len(r.ents), "write_calls": writes, "tear_points": tears})
 		}
-		var calls []string
-		for _, e := range r.ents {
-			calls = append(calls, e.String())
-		}
-		perScn = append(perScn, map[string]any{"scenario": scns[i].Name, "d2_args": scns[i].Args, "mutating_calls": calls, "kill_points": len(r.ents), "write_calls": writes, "tear_points": tears})
-	}
-	var evals, nontriv int64
-	var timeouts []string
-	outcomes := map[string]int{}
-	samples := []any{}
-	done := parallel(len(wits), 0, p.Expired, func(i int) {
-		b, _ := json.Marshal(wits[i])
-		var res eng.Res
-		func() {
-			defer func() {
-				if r := recover(); r != nil {
-					if to, ok := r.(runTimeout); ok {
+		planned += len(wits)
+		allWits = append(allWits, wits...)
+		done := parallel(len(wits), 0, p.Expired, func(i int) {
+			b, _ := json.Marshal(wits[i])
+			var res eng.Res
+			func() {
+				defer func() {
+					if r := recover(); r != nil {
+						if to, ok := r.(runTimeout); ok {
+							mu.Lock()
+							timeouts = append(timeouts, to.msg)
+							mu.Unlock()
+							return
+						}
+						he, ok := r.(harnessError)
+						if !ok {
+							he = harnessError{fmt.Sprint(r)}
+						}
 						mu.Lock()
-						timeouts = append(timeouts, to.msg)
+						herr = append(herr, he.msg)
 						mu.Unlock()
-						return
 					}
-					he, ok := r.(harnessError)
-					if !ok {
-						he = harnessError{fmt.Sprint(r)}
+				}()
+				res = c48Crash(string(b))
+			}()
+			mu.Lock()
+			defer mu.Unlock()
+			if res.Outcome == "" && res.Fail == nil {
+				return // timed out or harness error: not an evaluation
+			}
+			evals++
+			if res.Nontrivial {
+				nontriv++
+			}
+			if res.Outcome != "" {
+				outcomes[res.Outcome]++
+				if wits[i].Mode == "kill" {
+					killOutcome[fmt.Sprintf("%s/%d", wits[i].Scn, wits[i].K)] = res.Outcome
+				}
+			}
+			if res.Fail != nil {
+				res.Fail.Oracle, res.Fail.Witness = "crash", string(b)
+				p.Fail(*res.Fail)
+			}
+		})
+		finished += done
+		return len(herr) == 0
+	}
+
+	t0 = time.Now()
+	ok := round(scns)
+	p.Coverage["first_round_s"] = time.Since(t0).Seconds()
+	if ok && !p.Expired() {
+		// second round — start from non-initial states: every distinct kind of sandbox state that a killed run of a
+		// render scenario leaves behind with the target still old (leftover temporary files of an earlier crash) becomes
+		// the initial state of a derived scenario whose own crash points are enumerated completely (two crashes in a row)
+		t0 = time.Now()
+		var derived []c48Scn
+		var names []string
+		seenState := map[string]bool{}
+		for _, w := range allWits {
+			sc := c48Scn_(w.Scn)
+			if w.Mode != "kill" || sc == nil || sc.Cmd == "fmt" || (!p.Thorough() && sc.Name != "svg-2-shapes-old-small" && sc.Name != "txt-2-shapes-old-small") {
+				continue
+			}
+			oc := killOutcome[fmt.Sprintf("%s/%d", w.Scn, w.K)]
+			if !strings.Contains(oc, "targets=old") || strings.Contains(oc, "leftover-files=0") {
+				continue
+			}
+			kind := w.Scn + "|" + oc + "|" + strings.SplitN(w.At, " ", 2)[0] // one representative per (state kind, call kind at the crash point)
+			if seenState[kind] {
+				continue
+			}
+			seenState[kind] = true
+			name := fmt.Sprintf("%s@after-kill-%d", w.Scn, w.K)
+			func() {
+				defer func() {
+					if r := recover(); r != nil {
+						herr = append(herr, fmt.Sprint(r))
 					}
-					mu.Lock()
-					herr = append(herr, he.msg)
-					mu.Unlock()
+				}()
+				if d := c48Scn_(name); d != nil {
+					derived = append(derived, *d)
+					names = append(names, name)
 				}
 			}()
-			res = c48Crash(string(b))
-		}()
-		mu.Lock()
-		defer mu.Unlock()
-		if res.Outcome == "" && res.Fail == nil {
-			return // timed out or harness error: not an evaluation
 		}
-		evals++
-		if res.Nontrivial {
-			nontriv++
+		p.Coverage["derived_scenarios_started_from_crashed_states"] = names
+		if len(derived) > 0 && len(herr) == 0 {
+			round(derived)
 		}
-		if res.Outcome != "" {
-			outcomes[res.Outcome]++
-		}
-		if res.Fail != nil {
-			res.Fail.Oracle, res.Fail.Witness = "crash", string(b)
-			p.Fail(*res.Fail)
-		}
-	})
+		p.Coverage["second_round_s"] = time.Since(t0).Seconds()
+	}
 	if len(herr) > 0 {
 		sort.Strings(herr)
 		p.HarnessErr = clip(strings.Join(herr, "\n"), 8000)
 		return
 	}
-	for i := 0; i < len(wits) && len(samples) < 12; i += 1 + len(wits)/12 {
-		samples = append(samples, wits[i])
+	samples := []any{}
+	for i := 0; i < len(allWits) && len(samples) < 12; i += 1 + len(allWits)/12 {
+		samples = append(samples, allWits[i])
 	}
 	oc := map[string]any{}
 	for k, v := range outcomes {
 		oc[k] = v
 	}
-	p.Coverage["crash_runs_s"] = time.Since(t0).Seconds()
 	p.Coverage["evaluations"] = evals
 	p.Coverage["distinct_nontrivial"] = nontriv
 	p.Coverage["samples"] = samples
 	p.Coverage["scenarios"] = perScn
-	p.Coverage["crash_points_planned"] = len(wits)
+	p.Coverage["crash_points_planned"] = planned
 	p.Coverage["outcomes"] = oc
 	p.Coverage["outcome_classes"] = len(outcomes)
-	p.Coverage["exhaustive"] = done == len(wits) && len(timeouts) == 0
+	p.Coverage["exhaustive"] = finished == planned && len(timeouts) == 0
 	if len(timeouts) > 0 {
 		sort.Strings(timeouts)
 		p.Coverage["runs_timed_out"] = timeouts
 	}
-	p.Coverage["reference_runs"] = 2 * len(scns)
+	p.Coverage["reference_runs"] = refRuns
 }
 
 func init() {
